@@ -616,6 +616,14 @@ class KInterp:
                     raise Unsupported("scatter-accumulate `%s` (only in transient arms)" % U(t))
                 if v is None:
                     v = self.eval(value_expr, st)
+                ip_ = idx.plain()
+                if ip_ is not None and ip_.is_const() and isinstance(old, GExpr) and not isinstance(v, (BExpr, PyVal)) \
+                        and not (isinstance(v, GExpr) and v.plain() is not None and v.plain().is_const()):
+                    # one element of a local work array (row = np.zeros(n); row[0] = x): the array is no per-row quantity any
+                    # more; it stays usable as a whole (a row template) and is an opaque symbol in any arithmetic
+                    self._opaque_n = getattr(self, "_opaque_n", 0) + 1
+                    env[name] = GExpr.of(Poly.sym("local_array", name, self._opaque_n))
+                    return
                 env[name] = self._scatter(old, idx, v, G, t)
                 return
         rt = self._res_target(t, st)
